@@ -3,7 +3,7 @@
     of the quantifier round trip. *)
 From Coq Require Import List NArith Bool Arith Lia.
 From Acg Require Import Base.Str Base.Outcome Model.Retree Model.RetreeParse
-  Model.RetreeRender.
+  Model.RetreeRender Proofs.RetreeWf.
 Import ListNotations.
 Open Scope N_scope.
 
@@ -82,4 +82,192 @@ Proof.
   intros n rest Hr. destruct (dec_spec n) as [Hv [Hd Hne]].
   unfold try_int. rewrite (take_digits_app _ _ Hd Hr).
   destruct (dec n) as [|d ds] eqn:E; [congruence|]. rewrite Hv. reflexivity.
+Qed.
+
+(** ** Quantifier round trip: [parse_quantifier (render_quantifier q ++ rest)] *)
+Definition starts_blank (ts : list tok) : bool :=
+  match ts with C c :: _ => (c =? 32) || (c =? 9) | _ => false end.
+
+Lemma skip_blanks_id : forall ts, starts_blank ts = false -> skip_blanks ts = ts.
+Proof.
+  intros [|[c|f] r] H; cbn in *; auto. rewrite H. reflexivity.
+Qed.
+
+Lemma try_int_none : forall ts, starts_with_digit ts = false -> try_int ts = (None, ts).
+Proof.
+  intros [|[c|f] r] H; unfold try_int; cbn in *; auto. rewrite H. reflexivity.
+Qed.
+
+Lemma dec_head : forall n r, exists d tl,
+  map C (dec n) ++ r = C d :: tl /\ is_digit d = true.
+Proof.
+  intros n r. destruct (dec_spec n) as [_ [Hd Hne]].
+  destruct (dec n) as [|d ds]; [congruence|].
+  cbn [forallb] in Hd. apply andb_true_iff in Hd. destruct Hd as [Hd _].
+  exists d, (map C ds ++ r). split; auto.
+Qed.
+
+Lemma digit_not_blank : forall d, is_digit d = true -> (d =? 32) || (d =? 9) = false.
+Proof.
+  intros d H. unfold is_digit in H. apply andb_true_iff in H. destruct H as [H1 _].
+  apply N.leb_le in H1. apply orb_false_iff. split; apply N.eqb_neq; lia.
+Qed.
+
+Lemma skip_blanks_dec : forall n r, skip_blanks (map C (dec n) ++ r) = map C (dec n) ++ r.
+Proof.
+  intros n r. destruct (dec_head n r) as [d [tl [E Hd]]]. rewrite E.
+  apply skip_blanks_id. cbn. apply digit_not_blank. exact Hd.
+Qed.
+
+Definition qsuffix (ng : bool) : list tok := if ng then [C 63] else [].
+
+Lemma close_braces : forall ng mn mx rest,
+  (ng = false -> peek_lit [63] rest = false) ->
+  match mx with Some m => m <? mn | None => false end = false ->
+  (iflit [125; 63] at C 125 :: qsuffix ng ++ rest as r
+   then (do q <- mk_quantifier true mn mx; Ok (q, r))
+   else iflit [125] at C 125 :: qsuffix ng ++ rest as r
+        then (do q <- mk_quantifier false mn mx; Ok (q, r)) else Err tt)
+  = Ok (mkQuant ng mn mx, rest).
+Proof.
+  intros ng mn mx rest Hf Hg.
+  assert (Hq : forall b, mk_quantifier b mn mx = Ok (mkQuant b mn mx)).
+  { intros b. unfold mk_quantifier. destruct mx as [m|]; auto. rewrite Hg. reflexivity. }
+  destruct ng; cbn [qsuffix app try_lit].
+  - change (125 =? 125) with true. change (63 =? 63) with true. cbv iota.
+    rewrite Hq. reflexivity.
+  - change (125 =? 125) with true. cbv iota.
+    specialize (Hf eq_refl). unfold peek_lit in Hf. cbn [try_lit] in Hf.
+    destruct rest as [|[c|f] r]; cbn [try_lit]; try (rewrite Hq; reflexivity).
+    destruct (c =? 63); [discriminate|]. rewrite Hq. reflexivity.
+Qed.
+
+(** "{n}" *)
+Lemma parse_braces_exact : forall n ng rest,
+  (ng = false -> peek_lit [63] rest = false) ->
+  parse_braces (map C (dec n) ++ C 125 :: qsuffix ng ++ rest)
+  = Ok (mkQuant ng n (Some n), rest).
+Proof.
+  intros n ng rest Hf. unfold parse_braces.
+  rewrite skip_blanks_dec.
+  rewrite (try_int_dec n (C 125 :: qsuffix ng ++ rest) eq_refl).
+  cbn [skip_blanks]. change ((125 =? 32) || (125 =? 9)) with false. cbv iota.
+  cbn [try_lit]. change (125 =? 44) with false. cbv iota.
+  cbn [skip_blanks]. change ((125 =? 32) || (125 =? 9)) with false. cbv iota.
+  rewrite (try_int_none (C 125 :: qsuffix ng ++ rest) eq_refl).
+  cbn [skip_blanks]. change ((125 =? 32) || (125 =? 9)) with false. cbv iota.
+  cbn [is_some negb andb]. rewrite N.ltb_irrefl.
+  apply close_braces; auto. apply N.ltb_irrefl.
+Qed.
+
+(** "{n,m}" *)
+Lemma parse_braces_between : forall n m ng rest,
+  n <= m -> (ng = false -> peek_lit [63] rest = false) ->
+  parse_braces (map C (dec n) ++ C 44 :: map C (dec m) ++ C 125 :: qsuffix ng ++ rest)
+  = Ok (mkQuant ng n (Some m), rest).
+Proof.
+  intros n m ng rest Hnm Hf. unfold parse_braces.
+  rewrite skip_blanks_dec.
+  rewrite (try_int_dec n (C 44 :: map C (dec m) ++ C 125 :: qsuffix ng ++ rest) eq_refl).
+  cbn [skip_blanks]. change ((44 =? 32) || (44 =? 9)) with false. cbv iota.
+  cbn [try_lit]. change (44 =? 44) with true. cbv iota.
+  rewrite skip_blanks_dec.
+  rewrite (try_int_dec m (C 125 :: qsuffix ng ++ rest) eq_refl).
+  cbn [skip_blanks]. change ((125 =? 32) || (125 =? 9)) with false. cbv iota.
+  cbn [is_some negb andb].
+  assert (Hg : (m <? n) = false) by (apply N.ltb_ge; exact Hnm).
+  rewrite Hg. apply close_braces; auto.
+Qed.
+
+(** "{n,}" *)
+Lemma parse_braces_atleast : forall n ng rest,
+  (ng = false -> peek_lit [63] rest = false) ->
+  parse_braces (map C (dec n) ++ C 44 :: C 125 :: qsuffix ng ++ rest)
+  = Ok (mkQuant ng n None, rest).
+Proof.
+  intros n ng rest Hf. unfold parse_braces.
+  rewrite skip_blanks_dec.
+  rewrite (try_int_dec n (C 44 :: C 125 :: qsuffix ng ++ rest) eq_refl).
+  cbn [skip_blanks]. change ((44 =? 32) || (44 =? 9)) with false. cbv iota.
+  cbn [try_lit]. change (44 =? 44) with true. cbv iota.
+  cbn [skip_blanks]. change ((125 =? 32) || (125 =? 9)) with false. cbv iota.
+  rewrite (try_int_none (C 125 :: qsuffix ng ++ rest) eq_refl).
+  cbn [skip_blanks]. change ((125 =? 32) || (125 =? 9)) with false. cbv iota.
+  cbn [is_some negb andb].
+  apply close_braces; auto.
+Qed.
+
+Lemma map_qsuffix : forall ng : bool, map C (if ng then [63] else ([] : text)) = qsuffix ng.
+Proof. destruct ng; reflexivity. Qed.
+
+Lemma peek_none : forall rest, peek_lit [63] rest = false -> try_lit [63] rest = None.
+Proof.
+  intros rest H. unfold peek_lit in H. destruct (try_lit [63] rest); [discriminate|reflexivity].
+Qed.
+
+Lemma parse_quantifier_brace : forall r,
+  parse_quantifier (C 123 :: r)
+  = (do2 (q, r') <- parse_braces r; (Ok (Some q, r') : presult (option quantifier))).
+Proof. intros r. reflexivity. Qed.
+
+Theorem quantifier_roundtrip : forall q rest,
+  wf_quant q = true -> (q_non_greedy q = false -> peek_lit [63] rest = false) ->
+  parse_quantifier (map C (render_quantifier q) ++ rest) = Ok (Some q, rest).
+Proof.
+  intros [ng mn mx] rest Hwf Hf. unfold wf_quant in Hwf. cbn [q_min q_max q_non_greedy] in *.
+  unfold render_quantifier. cbn [q_min q_max q_non_greedy].
+  rewrite map_app, map_qsuffix, <- app_assoc.
+  assert (Hsimple : forall c (mn' : N) (mx' : option N),
+            memN c [42; 43; 63] = true ->
+            (forall b, mk_quantifier b mn' mx' = Ok (mkQuant b mn' mx')) ->
+            (forall r,
+               parse_quantifier (C c :: C 63 :: r)
+               = (do q <- mk_quantifier true mn' mx'; (Ok (Some q, r) : presult (option quantifier)))) ->
+            (forall r, try_lit [63] r = None ->
+               parse_quantifier (C c :: r)
+               = (do q <- mk_quantifier false mn' mx'; (Ok (Some q, r) : presult (option quantifier)))) ->
+            parse_quantifier (C c :: qsuffix ng ++ rest) = Ok (Some (mkQuant ng mn' mx'), rest)).
+  { intros c mn' mx' _ Hq H1 H2. destruct ng; cbn [qsuffix app].
+    - rewrite H1, Hq. reflexivity.
+    - rewrite H2, Hq; [reflexivity|]. apply peek_none. apply Hf. reflexivity. }
+  destruct mx as [m|].
+  - destruct (mn =? m) eqn:Eeq.
+    + apply N.eqb_eq in Eeq. subst m.
+      rewrite !map_app, <- !app_assoc. cbn [map app].
+      rewrite parse_quantifier_brace, (parse_braces_exact mn ng rest Hf). reflexivity.
+    + destruct (mn =? 0) eqn:E0.
+      * apply N.eqb_eq in E0. subst mn. destruct (m =? 1) eqn:E1.
+        -- apply N.eqb_eq in E1. subst m. cbn [map app].
+           apply Hsimple; [reflexivity | intros b; reflexivity | | ].
+           ++ intros r. unfold parse_quantifier. cbn [try_lit].
+              change (63 =? 42) with false. change (63 =? 43) with false.
+              change (63 =? 63) with true. cbv iota. reflexivity.
+           ++ intros r Hr. unfold parse_quantifier. cbn [try_lit] in Hr |- *.
+              change (63 =? 42) with false. change (63 =? 43) with false.
+              change (63 =? 63) with true. cbv iota. rewrite Hr. reflexivity.
+        -- rewrite !map_app, <- !app_assoc. cbn [map app].
+           rewrite parse_quantifier_brace.
+           change (C 48 :: C 44 :: map C (dec m) ++ C 125 :: qsuffix ng ++ rest)
+             with (map C (dec 0) ++ C 44 :: map C (dec m) ++ C 125 :: qsuffix ng ++ rest).
+           rewrite (parse_braces_between 0 m ng rest); auto. apply N.le_0_l.
+      * rewrite !map_app, <- !app_assoc. cbn [map app].
+        rewrite parse_quantifier_brace.
+        rewrite (parse_braces_between mn m ng rest); auto. apply N.leb_le. exact Hwf.
+  - destruct (mn =? 0) eqn:E0.
+    + apply N.eqb_eq in E0. subst mn. cbn [map app]. apply Hsimple; [reflexivity | intros b; reflexivity | | ].
+      * intros r. reflexivity.
+      * intros r Hr. unfold parse_quantifier. cbn [try_lit] in Hr |- *.
+        change (42 =? 42) with true. change (42 =? 43) with false. change (42 =? 63) with false.
+        cbv iota. rewrite Hr. reflexivity.
+    + destruct (mn =? 1) eqn:E1.
+      * apply N.eqb_eq in E1. subst mn. cbn [map app]. apply Hsimple; [reflexivity | intros b; reflexivity | | ].
+        -- intros r. unfold parse_quantifier. cbn [try_lit].
+           change (43 =? 42) with false. change (43 =? 43) with true. change (63 =? 63) with true.
+           cbv iota. reflexivity.
+        -- intros r Hr. unfold parse_quantifier. cbn [try_lit] in Hr |- *.
+           change (43 =? 42) with false. change (43 =? 43) with true. change (43 =? 63) with false.
+           cbv iota. rewrite Hr. reflexivity.
+      * rewrite !map_app, <- !app_assoc. cbn [map app].
+        rewrite parse_quantifier_brace.
+        rewrite (parse_braces_atleast mn ng rest); auto.
 Qed.
